@@ -294,12 +294,12 @@ def g_tree(s):
     return 'DT (%s) %s' % (g_scope(s), g_list(s.kids, g_tree, 'dtree'))
 
 
-def file_defs(ex, modnames, out):
-    chunked('tk', enc_tokens(ex['leaves']), out)
+def file_defs(ex, modnames, out, pre=''):
+    chunked(pre + 'tk', enc_tokens(ex['leaves']), out)
     for i, t in enumerate(ex['top']):
-        out.append('Definition tree_%d : dtree := %s.' % (i, g_tree(t)))
-    out.append('Definition the_file : file := File %s (dec_toks SLine tk) %s.' % (
-        g_list(modnames, g_str, 'str'), g_list(range(len(ex['top'])), lambda i: 'tree_%d' % i, 'dtree')))
+        out.append('Definition %stree_%d : dtree := %s.' % (pre, i, g_tree(t)))
+    out.append('Definition %sthe_file : file := File %s (dec_toks SLine %stk) %s.' % (
+        pre, g_list(modnames, g_str, 'str'), pre, g_list(range(len(ex['top'])), lambda i: '%stree_%d' % (pre, i), 'dtree')))
 
 
 class Reader:
@@ -596,10 +596,11 @@ def _name_rec(d):
 def _probe_task(task):
     """task = dict(src, path, root, positions, want_names) -> contexts / names from the real jedi"""
     import jedi
-    out = dict(ctx=[], names=[], err=None)
+    out = dict(ctx=[], names=[], err=None, modfull=None)
     try:
         proj = jedi.Project(task['root'], smart_sys_path=True, load_unsafe_extensions=False)
         s = jedi.Script(task['src'], path=task['path'], project=proj)
+        out['modfull'] = s.get_context(1, 0).full_name
     except Exception as e:
         out['err'] = common.exc_sig(e)
         return out
@@ -750,29 +751,41 @@ def token_positions(ex, rng, per_file):
     return sorted(p for p in out if 1 <= p[0] <= len(lines) and 0 <= p[1] <= len(lines[p[0] - 1]))
 
 
-def build_case(fc):
+def build_case(fc, pre=''):
     """-> (definitions text, term of type list N)"""
     out = []
-    file_defs(fc.ex, fc.modnames, out)
-    chunked('pall', [x for (l, n) in fc.pos_lines for x in (l, n)], out)
-    chunked('psel', [x for p in fc.pos_sel for x in p], out)
-    chunked('qs', [x for q in fc.queries for x in (q[0], q[1][0], q[1][1])], out)
-    chunked('ns', [x for n in fc.fn for x in (n[0], n[1][0], n[1][1])], out)
-    return '\n'.join(out) + '\n', '(answer the_file pall psel qs ns)'
+    file_defs(fc.ex, fc.modnames, out, pre)
+    chunked(pre + 'pall', [x for (l, n) in fc.pos_lines for x in (l, n)], out)
+    chunked(pre + 'psel', [x for p in fc.pos_sel for x in p], out)
+    chunked(pre + 'qs', [x for q in fc.queries for x in (q[0], q[1][0], q[1][1])], out)
+    chunked(pre + 'ns', [x for n in fc.fn for x in (n[0], n[1][0], n[1][1])], out)
+    return '\n'.join(out) + '\n', '(answer {0}the_file {0}pall {0}psel {0}qs {0}ns)'.format(pre)
 
 
-def coq_answers(cases):
-    """one coqc per file, in parallel; returns list of (list of ints | None, err)"""
+def coq_answers(cases, per_proc=2):
+    """a few files per coqc (amortises start-up), processes in parallel;
+    returns list of (list of ints | None, err)"""
     from concurrent.futures import ThreadPoolExecutor
+    order = sorted(range(len(cases)), key=lambda i: -len(cases[i].positions))
+    nb = max(1, (len(cases) + per_proc - 1) // per_proc)
+    buckets = [order[b::nb] for b in range(nb)]      # big and small files mixed
 
-    def one(fc):
-        defs, term = build_case(fc)
-        res, err = common.coq_eval_N_lists(IMPORTS, '(fun x : list N => x)', [term], shard=1, timeout=900,
-                                           defs=DEFS + defs)
-        return (res[0] if res else None), err
+    def one(bucket):
+        defs, terms = [], []
+        for j, i in enumerate(bucket):
+            d, t = build_case(cases[i], 'c%d_' % j)
+            defs.append(d)
+            terms.append(t)
+        res, err = common.coq_eval_N_lists(IMPORTS, '(fun x : list N => x)', terms, shard=len(terms), timeout=1500,
+                                           defs=DEFS + ''.join(defs))
+        return [(res[j] if res else None, err) for j in range(len(bucket))]
 
+    out = [None] * len(cases)
     with ThreadPoolExecutor(max_workers=common.NPROC) as ex:
-        return list(ex.map(one, cases))
+        for bucket, rs in zip(buckets, ex.map(one, buckets)):
+            for i, r in zip(bucket, rs):
+                out[i] = r
+    return out
 
 
 def leaf_cover(ex):
@@ -1164,7 +1177,7 @@ def run(ctx):
 
 def stream_generated(ctx):
     t0 = time.time()
-    nprog = ctx.n(36, 260)
+    nprog = ctx.n(22, 260)
     cases, projects = make_projects(ctx, nprog)
     for fc in cases:
         set_all_positions(fc)
@@ -1189,7 +1202,7 @@ def stream_corpus(ctx, fp):
     t0 = time.time()
     files = corpus_files(ctx)
     changed = any(v.startswith('missing') for v in fp.values())
-    nfiles = ctx.n(14, 200)
+    nfiles = ctx.n(8, 200)
     ctx.rng.shuffle(files)
     ccases, skipped = [], 0
     for path in files:
@@ -1197,7 +1210,7 @@ def stream_corpus(ctx, fp):
             break
         try:
             src = open(path, encoding='utf8').read()
-            if len(src) > ctx.n(45000, 200000):
+            if len(src) > ctx.n(16000, 200000):
                 continue
             rel = os.path.relpath(path, common.REPO)
             dotted = rel[:-3].split(os.sep)
@@ -1207,13 +1220,17 @@ def stream_corpus(ctx, fp):
         except Unsupported:
             skipped += 1
             continue
-        fc.pos_lines, fc.pos_sel = [], token_positions(fc.ex, ctx.rng, ctx.n(400, 1500))
+        fc.pos_lines, fc.pos_sel = [], token_positions(fc.ex, ctx.rng, ctx.n(260, 1500))
         fc.positions = list(fc.pos_sel)
         ccases.append(fc)
     ctx.stat('corpus_files', len(ccases))
     ctx.stat('corpus_skipped', skipped)
     cgood = run_batch(ctx, ccases, True, 'corpus')
     for fc in cgood:
+        # the dotted name of a corpus module depends on the environment's sys.path (e.g. jedi's helper
+        # puts its own directory there); it is an input of the model, validated only on generated projects
+        if fc.obs.get('modfull'):
+            fc.modnames = fc.obs['modfull'].split('.')
         for m in fc.fnmeta:
             m.pop('runtime', None)
     evaluate(ctx, cgood, 'corpus')
